@@ -1305,6 +1305,9 @@ func (s repStmt) plain() bool {
 // Seven rows (sort-key-*, sort-natural-key-name-holds-drop and two controls) are the deviations of sort by a key that
 // fixes/sort-key-drops.patch repaired: the entry under the key goes through ToLiquid before the nil test, and the name of
 // the key is fmt.Sprint(values.ResolveDrops(key)).
+// Seventeen rows sort-natural-* put drops where sort_natural looks: among its elements (drops of strings, of drops, of
+// nil), under the key of its map elements, in the key argument; they agreed when they were added (the congruence of
+// sort_natural for drops nested in containers is ArrF.sortNatural_respects_gen, Proofs/RepEqSort.lean).
 //
 // A row is (name, template, variant bindings). ORACLE: the variant renders exactly what its generic twin renders,
 // where the twin is made from the variant by genericTwin: the drop wrappers removed and every slice, array and map
@@ -1336,6 +1339,31 @@ func repsNestedDropFamily(r *Run) {
 type nestedRow struct {
 	name, src string
 	variant   map[string]any
+}
+
+// sortNaturalLongRow: 20 elements (beyond the insertion sort of sort.Sort) with distinct sort texts, every second or
+// third of them a drop or a drop of a drop; with keyed = true the elements are maps {"k": text, "n": index} with the
+// entry under "k" a drop / a drop of a drop, every third element itself a drop (no two elements tie: Go's order of ties
+// beyond 12 elements is not specified)
+func sortNaturalLongRow(keyed bool) []any {
+	out := []any{}
+	for i := 0; i < 20; i++ {
+		var x any = fmt.Sprintf("s%02d", (i*7)%20)
+		switch i % 4 {
+		case 1:
+			x = dropV{x}
+		case 2:
+			x = dropV{dropV{x}}
+		}
+		if keyed {
+			x = map[string]any{"k": x, "n": fmt.Sprint(i)}
+			if i%3 == 0 {
+				x = dropV{x}
+			}
+		}
+		out = append(out, x)
+	}
+	return out
 }
 
 // genericTwin: the same Liquid value in the generic representation - no drop wrapper, every slice and array a
@@ -1549,6 +1577,28 @@ func nestedRows() []nestedRow {
 		// controls (agree with and without the repair): drops as entries that are not nil, sort_natural by a key with a drop that yields nil
 		{"control-sort-key-drop-entries", `{{ a | sort: "k" | map: "n" | join }}`, b{"a": l{m{"k": d(2), "n": "x"}, m{"k": 1, "n": "y"}, d(m{"k": d(d(3)), "n": "z"})}}},
 		{"control-sort-natural-key-drop-entries", `{{ a | sort_natural: "k" | map: "n" | join }}`, b{"a": l{m{"k": "b", "n": "x"}, m{"k": d(nil), "n": "y"}, m{"k": d("A"), "n": "z"}}}},
+		// sort_natural on values with nested drops (Proofs/RepEqSort.lean ArrF.sortNatural_respects_gen; the first two rows are
+		// the evaluated statements sort_natural_elements_drops_evaluated / sort_natural_key_entries_drops_evaluated of
+		// Proofs/C18.lean): elements that are drops of strings, drops of drops, drops that yield nil; maps whose entry under
+		// the key is a drop, a drop of a drop, Drop(nil), something that is no string; elements that are drops of maps; mixed
+		// with plain strings and nil; the key argument a drop, a drop of a drop, Drop(nil), an array holding drops
+		{"sort-natural-elements-drops", `{{ a | sort_natural | join: "," }}`, b{"a": l{d("b"), "C", d(d("a")), nil, d(nil), "B"}}},
+		{"sort-natural-key-entries-drops", `{{ a | sort_natural: k | map: "n" | join }}`, b{"a": l{m{"k": d("b"), "n": "1"}, m{"k": d(nil), "n": "2"}, d(m{"k": d(d("A")), "n": "3"}), m{"n": "4"}, m{"k": "C", "n": "5"}}, "k": d("k")}},
+		{"sort-natural-drop-nil-elements", `{{ a | sort_natural | join: "," }}|{% assign s = a | sort_natural %}{{ s.first }}/{{ s.last }}/{{ s | size }}`, b{"a": l{"b", d(nil), "a", nil, d(d(nil)), d("")}}},
+		{"sort-natural-nested-arrays", `{{ a | sort_natural | join: ";" }}`, b{"a": l{l{d("b")}, l{d(d("A"))}, "[c]", d(l{d(1), d(nil)}), nil}}},
+		{"sort-natural-nested-maps", `{{ a | sort_natural | join: ";" }}`, b{"a": l{m{"x": d("b")}, m{"x": d(d("A"))}, "map[x:a]", d(m{"x": d(nil)})}}},
+		{"sort-natural-numbers-and-drops", `{{ a | sort_natural | join: "," }}`, b{"a": l{d(10), 9, d(d(1.5)), "1", d(true), nil}}},
+		{"sort-natural-typed-elements", `{{ a | sort_natural | join: ";" }}`, b{"a": l{[]int{2}, d([]string{"a"}), [1]any{d("A")}, l{d(2)}}}},
+		{"sort-natural-outer-drop", `{{ a | sort_natural | join: "," }}|{{ t | sort_natural | join: "," }}`, b{"a": d(l{d("b"), "a", d(d("C"))}), "t": d([]string{"b", "a", "C"})}},
+		{"sort-natural-key-nil-entries", `{{ a | sort_natural: "k" | map: "n" | join }}`, b{"a": l{m{"k": "b", "n": "1"}, m{"k": d(nil), "n": "2"}, m{"k": nil, "n": "3"}, m{"n": "4"}, m{"k": d(d(nil)), "n": "5"}, m{"k": d("A"), "n": "6"}}}},
+		{"sort-natural-key-mixed-strings-nil", `{{ a | sort_natural: "k" | join: ";" }}`, b{"a": l{m{"k": d("b")}, "zz", nil, d(nil), d("yy"), m{"k": d(d("a"))}, d(m{"k": "C"})}}},
+		{"sort-natural-key-entry-no-string", `{{ a | sort_natural: "k" | map: "n" | join }}`, b{"a": l{m{"k": d(2), "n": "1"}, m{"k": d("a"), "n": "2"}, m{"k": d(l{"x"}), "n": "3"}, m{"k": "B", "n": "4"}}}},
+		{"sort-natural-key-typed-maps", `{{ a | sort_natural: "k" | map: "n" | join }}`, b{"a": l{map[string]string{"k": "b", "n": "1"}, d(map[string]any{"k": d("a"), "n": "2"}), map[string]any{"k": d(d("C")), "n": "3"}}}},
+		{"sort-natural-key-is-drop-of-drop", `{{ a | sort_natural: k | map: "n" | join }}`, b{"a": l{m{"k": d("b"), "n": "1"}, m{"k": "a", "n": "2"}}, "k": d(d("k"))}},
+		{"sort-natural-key-is-drop-nil", `{{ a | sort_natural: k | join }}`, b{"a": l{d("b"), "a", d(d("C"))}, "k": d(nil)}},
+		{"sort-natural-key-array-of-drops", `{{ a | sort_natural: k | map: "n" | join }}`, b{"a": l{m{"[1 x]": d("b"), "n": "1"}, m{"[1 x]": "a", "n": "2"}}, "k": l{d(1), d(d("x"))}}},
+		{"sort-natural-20-elements", `{{ a | sort_natural | join: "," }}|{{ c | sort_natural: "k" | map: "n" | join: "," }}`, b{"a": sortNaturalLongRow(false), "c": sortNaturalLongRow(true)}},
+		{"sort-natural-loop-and-lookup", `{% assign s = a | sort_natural %}{% for x in s %}{{ x }}{% if x == "a" %}!{% endif %}{% endfor %}|{{ s[0] | upcase }}{{ s[0].size }}`, b{"a": l{d("b"), d(d("a")), "C"}}},
 	}
 	for _, sh := range nestedArrayShapes() {
 		twin := genericTwin(sh.val).([]any)
